@@ -1264,6 +1264,14 @@ static void run_ops(op_t *ops, int nops)
         case 'N': { char *p = dupz(op->a[0].p, op->a[0].len); prctl(PR_SET_NAME, p, 0, 0, 0); free(p); break; }
         case 's': if (setsid() < 0) ev_error("setsid"); break;
         case 'd': g_zleader_mask = (unsigned) arg_ll(&op->a[0]); break;
+        case 'O': { /* the calling program holds many open descriptors (a busy server): args n -- the limit is raised and /dev/null is
+                       duplicated until n descriptors are open, so that whatever the library opens gets a number >= n */
+            long n = (long) arg_ll(&op->a[0]);
+            struct rlimit rl; getrlimit(RLIMIT_NOFILE, &rl);
+            if ((long) rl.rlim_cur < n + 64) { rl.rlim_cur = (rlim_t) n + 64; if (rl.rlim_max < rl.rlim_cur) rl.rlim_max = rl.rlim_cur; if (setrlimit(RLIMIT_NOFILE, &rl) < 0) ev_error("setrlimit nofile"); }
+            int nul = open("/dev/null", O_RDONLY | O_CLOEXEC);
+            for (;;) { int f = fcntl(nul, F_DUPFD_CLOEXEC, 0); if (f < 0 || f >= n) { if (f >= 0) close(f); break; } }
+            break; }
         case 'v': { /* launcher: args n; the following X op is made n times, each time in a vfork() child of this process (the way
                        posix_spawn()-less launchers and shells start programs); vfork shares the address space and runs no fork handlers */
             if (i + 1 >= nops) { ev_error("bad v"); break; }
